@@ -240,6 +240,8 @@ pub fn explore(args: &[String]) -> i32 {
   let mut stop_worker = false;
   let mut free_runs = 0u64;
   let mut hung = false;
+  let mut alloc_yields = 0u64;
+  let mut runs_with_alloc = 0u64;
 
   // Compare every evaluation made since the last restart with the answer the same query gets
   // right after a restart. Runs only at points where the next run starts with a restart anyway.
@@ -336,6 +338,10 @@ pub fn explore(args: &[String]) -> i32 {
     *by_threads.entry(format!("{}", sw.threads)).or_insert(0) += 1;
     *by_era.entry(ERA_NAMES[sw.era as usize].to_string()).or_insert(0) += 1;
     steps += res.stats.steps;
+    alloc_yields += res.stats.alloc_yields;
+    if script.alloc_period > 0 {
+      runs_with_alloc += 1;
+    }
     decisions += res.stats.decisions;
     switches += res.stats.switches;
     blocked += res.stats.blocked_events;
@@ -505,7 +511,7 @@ pub fn explore(args: &[String]) -> i32 {
   let mut o = String::new();
   o.push_str("{\n");
   let _ = write!(o, "\"mode\":\"explore\",\"seed\":{},\"worker\":{},\"runs\":{},\"wall_s\":{:.3},", seed, worker, runs, t0.elapsed().as_secs_f64());
-  let _ = write!(o, "\"free_run_runs\":{},\"hung\":{},", free_runs, hung);
+  let _ = write!(o, "\"free_run_runs\":{},\"hung\":{},\"alloc_yields\":{},\"runs_with_alloc_yields\":{},", free_runs, hung, alloc_yields, runs_with_alloc);
   let _ = write!(o, "\"cold_evaluations\":{},\"cold_comparisons\":{},", cold_evaluations, cold_comparisons);
   let _ = write!(o, "\"evaluations\":{},\"comparisons\":{},\"r_checks\":{},\"handle_evaluations\":{},", evaluations, comparisons, r_checks, handle_evals);
   let _ = write!(o, "\"refusals\":{},\"refusals_through_lock_unwind\":{},\"runs_ending_with_poisoned_lock\":{},", refusals_err, refusals_panic, refusals_poison);
@@ -607,7 +613,7 @@ fn valid_months() -> Vec<(i64, i64, u64)> {
 /// and the number of queries that completed.
 fn batch(queries: &[Query], hash_seed: u64, reset: bool, watchdog: Duration) -> Result<Vec<(char, u64)>, (String, usize)> {
   let ops: Vec<crate::script::Op> = queries.iter().map(|q| crate::script::Op::Q { q: q.clone(), stop: false }).collect();
-  let script = crate::script::RunScript { threads: vec![ops], policy: crate::sched::Policy::Seq, sched_seed: 0, hash_seed, reset, fault_free: true };
+  let script = crate::script::RunScript { threads: vec![ops], policy: crate::sched::Policy::Seq, sched_seed: 0, hash_seed, reset, fault_free: true, alloc_period: 0 };
   let out = exec_run_opt(&script, false, false, watchdog, false);
   if let Some(a) = &out.result.abort {
     return Err((a.clone(), out.evals.len()));
